@@ -762,7 +762,8 @@ class ApplicationStartJobs(ApplicationJobs):
                                                     self.identifiers, process_load, load_request_map)
                 self.logger.debug(f'ApplicationStartJobs.distribute_to_single_node: {command.process.namespec}'
                                   f' is planned to start on Supvisors={identifier}')
-                command.update_identifier(identifier)
+                if identifier:
+                    command.update_identifier(identifier)
         else:
             self.logger.debug('ApplicationStartJobs.distribute_to_single_node: no Supvisors instance found to plan'
                               f' the starting of {self.application_name} with load={application_load}')
